@@ -628,13 +628,46 @@ fn stmt_case(w: &mut impl Write, rng: &mut Rng, kind: u64) {
     }
 }
 
-fn expr_case(w: &mut impl Write, x: &X, ctx: u8) {
+/// the same tokens with other trivia (blanks, line breaks, comments) between every two of them
+fn relayout(text: &str, rng: &mut Rng) -> String {
+    let lexed = oq3_parser::LexedStr::new(text);
+    let mut o = String::new();
+    // operator characters that were adjacent stay adjacent (`==`, `<<=`, `**` are several raw tokens)
+    let punct = |t: &str| t.chars().next().map(|c| !c.is_alphanumeric() && c != '_' && c != '"' && c != '$').unwrap_or(false);
+    let mut prev: Option<usize> = None;
+    for i in 0..lexed.len() {
+        if lexed.kind(i).is_trivia() {
+            continue;
+        }
+        let glued = matches!(prev, Some(j) if j + 1 == i && punct(lexed.text(j)) && punct(lexed.text(i)));
+        prev = Some(i);
+        if !o.is_empty() && !glued {
+            o.push_str([" ", "  ", "\n", "   ", " /* c */ ", "\n/* c */", " // c\n", " /* é */ "][rng.below(8) as usize]);
+        }
+        o.push_str(lexed.text(i));
+    }
+    o
+}
+
+fn expr_case(w: &mut impl Write, x: &X, ctx: u8, rng: &mut Rng) {
+    expr_case1(w, x, ctx, None);
+    expr_case1(w, x, ctx, Some(rng));
+}
+
+fn expr_case1(w: &mut impl Write, x: &X, ctx: u8, lay: Option<&mut Rng>) {
     let mut enc = String::new();
     x.enc(&mut enc);
     let mut t = String::new();
     x.print(0, false, &mut t);
     let text = if ctx == 0 { format!("{t};") } else { format!("int x = {t};") };
+    // line kind E: the text of the Coq printer; L: a re-layout of it (implementation only)
+    let (text, tag) = match lay {
+        Some(rng) => (relayout(&text, rng).replace('\n', "\\n"), "L"),
+        None => (text, "E"),
+    };
+    let parse_text = text.replace("\\n", "\n");
     let r = catch(|| {
+        let text = &parse_text;
         let parse = SourceFile::parse(&text);
         let nerr = parse.errors().len();
         let file = parse.tree();
@@ -654,9 +687,9 @@ fn expr_case(w: &mut impl Write, x: &X, ctx: u8) {
     match r {
         Ok((nerr, shape)) => {
             let oracle = if nerr > 0 { format!("FAIL C04: {nerr} syntax diagnostics on a valid expression") } else { "ok".into() };
-            writeln!(w, "shape\tE\t{}\t{text}\t{}\t{oracle}", enc.trim_end(), shape.trim_end()).unwrap();
+            writeln!(w, "shape\t{tag}\t{}\t{text}\t{}\t{oracle}", enc.trim_end(), shape.trim_end()).unwrap();
         }
-        Err(p) => writeln!(w, "shape\tE\t{}\t{text}\tPANIC\tFAIL C01: parser panicked: {p}", enc.trim_end()).unwrap(),
+        Err(p) => writeln!(w, "shape\t{tag}\t{}\t{text}\tPANIC\tFAIL C01: parser panicked: {p}", enc.trim_end()).unwrap(),
     }
 }
 
@@ -676,7 +709,7 @@ pub fn run(args: &[String]) {
         let redundant = rng.below(3) == 0;
         let x = gen_x(&mut rng, depth, redundant);
         let ctx = if starts_with_type(&x) { 1 } else { rng.below(2) as u8 };
-        expr_case(&mut w, &x, ctx);
+        expr_case(&mut w, &x, ctx, &mut rng);
     }
     let ns = arg_u64(args, "--stmts", 200);
     for case in 0..ns {
